@@ -109,6 +109,17 @@ HISTORIES = {
                     [("cmd", 0, "preface"), ("cmd", 0, "headers", 1, h2_request_headers(b"POST", b"/a"), False),
                      ("cmd", 0, "datan", 1, b"abc", False), ("cmd", 0, "rst", 1, 8)],
                     {"http": RESPOND}, {}),
+    # the peer has stopped reading; the application writes a window-full (the transport fills up: the last write
+    # waits) and then abandons its response - the server's RST_STREAM waits behind that write - and a new request
+    # arrives during the wait, before the peer reads again
+    "h2_abort_paused": ({"carrier": "h2", "tls": True, "alpn": "h2"},
+                        [("cmd", 0, "preface"), ("cmd", 0, "headers", 1, h2_request_headers(b"GET", b"/a"), True),
+                         ("pause", 0),
+                         ("cmd", 0, "headers", 3, h2_request_headers(b"GET", b"/slow"), True),
+                         ("resume", 0)],
+                        {"http:/a": [("recv_body",), ("gate", "g1"), ("send", {"type": "http.response.start", "status": 200, "headers": []}),
+                                     ("send", {"type": "http.response.body", "body": b"B" * 65535, "more_body": True}), ("return",)],
+                         "http:/slow": [("recv_body",), ("gate", "never"), ("send", OK200), ("send", BODY)]}, {}),
 }
 FAULTS = ["eof", "reset", "wfail", "terminate"]
 
@@ -153,7 +164,20 @@ def build(params: Any) -> tuple:
         sources.append(("clock", [("tick",)] * 6))
     sc = {"level": "conn", "conns": {0: conn}, "client_factory": make_client, "apps": apps,
           "config": {"keep_alive_timeout": t, **cfg}, "sources": sources, "trio_rev": True}
+    if any(e[0] == "pause" for e in client):
+        # while the peer is not reading, "end of response" is not observable by the client: time only passes once it
+        # has resumed (the clock source waits), so the client-side instants the oracle uses stay meaningful
+        # (likewise the peer is only lost once it reads again: a peer that half-closes and never reads keeps the
+        # server flushing for ever, which is back-pressure - C08 - not an idle connection)
+        for j, (name_, evs) in enumerate(sources):
+            if name_ in ("clock", "fault"):
+                sources[j] = (name_, [("resumed",)] + evs)
+        sc["guards"] = {"resumed": _resumed}
     return engine, sc
+
+
+def _resumed(w: Any, ev: Any = None) -> bool:
+    return any(e[0] == "resume" for _, e in w.driver.fired)
 
 
 def _responses(w: Any) -> List[dict]:
